@@ -1232,10 +1232,220 @@ def run_extra_families(ctx):
     ctx.set("extra_family_evaluations", n)
 
 
+# ------------------------------------------------------------------ ExportOps.tla: schema-directed single-node round trips
+_EO_PREF = ["INT64", "FLOAT", "BOOL", "UINT8", "DOUBLE", "INT32"]
+_EO_STR_ATTRS = {("BitShift", "direction"): ["LEFT", "RIGHT"]}
+
+
+def _eo_ops():
+    """Operators of the real schema registry (default domain, opset 18) with two single tensor inputs and one output."""
+    from onnx import defs
+
+    latest = {}
+    for sc in defs.get_all_schemas_with_history():
+        if sc.domain != "" or sc.since_version > 18 or sc.deprecated:
+            continue
+        if sc.name not in latest or latest[sc.name].since_version < sc.since_version:
+            latest[sc.name] = sc
+    out = []
+    for name, sc in sorted(latest.items()):
+        if len(sc.inputs) != 2 or len(sc.outputs) != 1 or name in ("MaxRoiPool", "PRelu"):
+            continue
+        if any(i.option != defs.OpSchema.FormalParameterOption.Single for i in sc.inputs):
+            continue
+        tc = {c.type_param_str: set(c.allowed_type_strs) for c in sc.type_constraints}
+        allowed = [tc.get(i.type_str, {i.type_str}) for i in sc.inputs]
+        dts = [d for d in _EO_PREF if all(f"tensor({d.lower()})" in a for a in allowed)]
+        if not dts:
+            continue
+        variants = [{}]
+        ok = True
+        for a in sc.attributes.values():
+            if a.type == defs.OpSchema.AttrType.INT:
+                dv = __import__("onnx").helper.get_attribute_value(a.default_value) if a.default_value.name else 0
+                variants.append({a.name: 1 - int(dv)})
+                if a.required:
+                    variants = [v for v in variants if v] + [{a.name: int(dv)}]
+            elif (name, a.name) in _EO_STR_ATTRS:
+                variants = [dict(v, **{a.name: x}) for v in variants for x in _EO_STR_ATTRS[(name, a.name)]] if a.required else \
+                    variants + [{a.name: x} for x in _EO_STR_ATTRS[(name, a.name)]]
+            elif a.required:
+                ok = False
+        if ok:
+            out.append((name, dts, variants))
+    return out
+
+
+def _eo_values(op, dt):
+    npd = {"INT64": np.int64, "INT32": np.int32, "FLOAT": np.float32, "DOUBLE": np.float64, "BOOL": np.bool_, "UINT8": np.uint8}[dt]
+    if dt == "BOOL":
+        return np.array([True, False, True, False]), np.array([True, True, False, False])
+    if dt == "UINT8":
+        return np.array([1, 2, 16, 255], npd), np.array([1, 2, 3, 7], npd)
+    if dt in ("FLOAT", "DOUBLE"):
+        a, b = np.array([7.5, -7.5, 5.25, -3.5], npd), np.array([2.0, 2.0, -3.0, -2.0], npd)
+        if dt == "DOUBLE":
+            b = b + np.array([1e-9, 0.0, 3e-10, 0.0], npd)      # not representable in float32
+    else:
+        a, b = np.array([7, -7, 5, -3], npd), np.array([2, 2, -3, -2], npd)
+    if op == "Pow":
+        a, b = np.abs(a), (np.array([2, 0, 1, 2], npd))
+    if op == "MatMul":
+        a, b = a.reshape(2, 2), b.reshape(2, 2)
+    return a, b
+
+
+def _eo_items(ctx):
+    items = []
+    for op, dts, variants in _eo_ops():
+        use = dts if not ctx.quick else dts[:2] + [d for d in dts[2:] if d in ("DOUBLE", "INT32")][:2]
+        for dt in use:
+            for at in variants:
+                for cst in ("input", "const0", "const1"):
+                    if cst == "const1" and op == "MatMul":
+                        continue
+                    for bits in range(4):
+                        opts = {"rename": False, "use_operators": bool(bits & 1), "inline_const": bool(bits & 2), "skip_initializers": False}
+                        if cst == "input" and opts["inline_const"]:
+                            continue
+                        items.append((op, dt, at, cst, opts))
+    return items
+
+
+def _eo_case(item):
+    import ast as _ast
+    import re as _re
+
+    import onnx
+    import onnxruntime as ort
+    import onnxscript
+    from onnx import TensorProto as TP
+    from onnx import helper as h
+    from onnxscript._internal import converter as _conv
+
+    ort.set_default_logger_severity(4)
+    op, dt, at, cst, opts = item
+    try:
+        et = getattr(TP, dt)
+        a, b = _eo_values(op, dt)
+        cmp_ops = ("Equal", "Greater", "GreaterOrEqual", "Less", "LessOrEqual")
+        rt = TP.BOOL if op in cmp_ops else et
+        nodes, ins, feeds = [], [h.make_tensor_value_info("P", et, list(a.shape))], {"P": a}
+        if cst == "input":
+            ins.append(h.make_tensor_value_info("Q", et, list(b.shape)))
+            feeds["Q"] = b
+        else:
+            bv = b if cst == "const1" or op == "MatMul" else b.reshape(-1)[0:1].reshape(())
+            if op == "MatMul":
+                bv = b
+            nodes.append(h.make_node("Constant", [], ["Q"], value=onnx.numpy_helper.from_array(np.asarray(bv), "qv")))
+        nodes += [h.make_node(op, ["P", "Q"], ["r"], **at), h.make_node("Identity", ["r"], ["R"])]
+        g = h.make_graph(nodes, "xg", ins, [h.make_tensor_value_info("R", rt, None)])
+        m = h.make_model(g, opset_imports=[h.make_opsetid("", 18)])
+        m.ir_version = 8
+        feeds_list = [feeds]
+        try:
+            run_model(m, feeds_list)
+        except Exception as e:  # noqa: BLE001
+            return {"discard": f"original refused: {str(e)[:160]}"}
+        r = round_trip(m, m, feeds_list, opts, main_name="xg", keep_text=True)
+        if "discard" in r:
+            return r
+        code = r.pop("code", "") or ""
+        line = next((l.strip() for l in code.splitlines() if _re.match(r"\s*r\s*=", l)), "")
+        infix, sym, back = False, "", ""
+        if line:
+            try:
+                e = _ast.parse(line).body[0].value
+                if isinstance(e, _ast.BinOp):
+                    infix, sym, back = True, type(e.op).__name__, _conv.primop_map.get(type(e.op), "")
+                elif isinstance(e, _ast.Compare) and len(e.ops) == 1:
+                    infix, sym, back = True, type(e.ops[0]).__name__, _conv.primop_map.get(type(e.ops[0]), "")
+                elif isinstance(e, _ast.BoolOp):
+                    infix, sym, back = True, type(e.op).__name__, _conv.primop_map.get(type(e.op), "")
+            except SyntaxError:
+                pass
+        inlined = cst != "input" and not _re.search(r"^\s*Q\s*=", code, _re.M) and r["stage"] not in ("export",)
+        r["obs"] = {"op": op, "sym": sym, "infix": bool(infix), "attrs_set": sorted(at), "const_dt": dt if cst != "input" else "",
+                    "const_rank": 0 if cst == "const0" else 1 if cst == "const1" else 0, "inlined": bool(inlined), "back": back}
+        r["line"] = line
+        return r
+    except Exception as e:  # noqa: BLE001
+        import traceback
+
+        return {"harness_error": f"{type(e).__name__}: {e}\n{traceback.format_exc()[-1200:]}"}
+
+
+def exportops_stage(ctx):
+    items = _eo_items(ctx)
+    res = core.pmap(_eo_case, items, chunksize=8)
+    obs, keep = [], []
+    for it, r in zip(items, res):
+        if "harness_error" in r:
+            raise core.MachineryError(f"harness failed on ExportOps {it}: {r['harness_error']}")
+        if "discard" in r:
+            ctx.add("discarded_original_not_runnable")
+            continue
+        if "obs" not in r:
+            continue
+        o = dict(r["obs"], id=f"o{len(obs)}")
+        obs.append(o)
+        keep.append((it, r, o))
+    if len(obs) < 300:
+        raise core.MachineryError(f"ExportOps: only {len(obs)} observations")
+    path = os.path.join(core.scratch(), "exportops_obs.json")
+    core.write_tlc_json(path, obs)
+    tr = core.run_tlc("ExportOps", "ExportOps.cfg", workers=1, env={"OBS_FILE": path}, timeout=1200)
+    ctx.tlc(tr, "ExportOps (rendering rules on observed exporter output)")
+    if not tr.ok:
+        raise core.MachineryError(f"ExportOps failed: {tr.out[-1500:]}")
+    rule = {pr[1]: pr[2] for pr in tr.printed if pr and pr[0] == "RULE"}
+    os.remove(path)
+    if len(rule) != len(obs):
+        raise core.MachineryError(f"ExportOps gave {len(rule)} verdicts for {len(obs)} observations")
+    n_infix = sum(1 for o in obs if o["infix"])
+    n_inl = sum(1 for o in obs if o["inlined"])
+    if not n_infix or not n_inl:
+        raise core.MachineryError(f"ExportOps vacuous: {n_infix} infix renderings, {n_inl} inlined constants observed")
+    warn = 0
+    for it, r, o in keep:
+        ctx.add("evaluations")
+        ctx.add("exportops_evaluations")
+        op, dt, at, cst, opts = it
+        otxt = "+".join(k for k, v in opts.items() if v) or "default"
+        why = rule[o["id"]]
+        if r["cls"] == "ok":
+            if why != "faithful":
+                warn += 1
+                if warn <= 5:
+                    print(f"NOTE C13 ExportOps: {op}({dt}, attrs {at}, Q as {cst}) options={otxt} rendered '{r.get('line')}' is classified {why} "
+                          "but round-trips on the probes", flush=True)
+            continue
+        if r["cls"] == "raise":
+            continue          # a refusal is allowed
+        blame = symptom_blame("model", opts, {"ops": [op], "consts": 1 if cst != "input" else 0}, r) if False else None
+        ctx.report({"family": "exportops", "item": [op, dt, at, cst], "options": opts, "rendered": r.get("line"), "rule": why},
+                   f"single node {op}({dt}, attributes {at}, second operand as {cst}) options={otxt}: exported as '{r.get('line')}' "
+                   f"[ExportOps.tla: {why}]; round trip is {r['cls']} at {r['stage']}: {r['msg'][:300]}", finding=_eo_known(op, dt, at, cst, opts, r))
+    ctx.set("exportops", {"observations": len(obs), "operators": len({o['op'] for o in obs}), "infix_renderings": n_infix, "inlined_constants": n_inl,
+                          "classified_unfaithful_but_equal_on_probes": warn})
+
+
+def _eo_known(op, dt, at, cst, opts, r):
+    """listed findings that explain a single-node failure (same identities as the TLC families use)"""
+    msg = r.get("msg", "")
+    if opts["inline_const"] and cst != "input" and "Unbound" in msg:
+        return "inline_const_nonref"
+    if "default_opset must be specified" in msg:
+        return "no_default_opset"
+    return None
+
+
 # ------------------------------------------------------------------ entry points
 def run(ctx: core.Ctx):
     run_tlc_family(ctx)
     run_extra_families(ctx)
+    exportops_stage(ctx)
     ctx.set("rule", "TLC cases = 'done' states of Export.tla (graph x kind x options x naming x declared types); "
                     "non-trivial = has an If/Loop item, a non-default name or a non-default option; distinct by (graph, names, kind, types, options)")
     ctx.assumptions += [
